@@ -11,6 +11,7 @@
 #include <cstring>
 #include <fcntl.h>
 #include <fstream>
+#include <malloc.h>
 #include <map>
 #include <poll.h>
 #include <set>
@@ -433,6 +434,11 @@ inline void workerLoop(Harness &h, const DriverArgs &a, int w, int W, uint64_t s
 }
 
 inline int driverMain(int argc, char **argv, Harness &h) {
+  // Large blocks (a Verilated model is 2 MB) always come from mmap and go back on free.  With
+  // glibc's dynamic threshold they migrate into the brk heap after the first free, where small
+  // long-lived blocks (caches) between them fragment it: a worker grew by about 150 kB per run.
+  mallopt(M_MMAP_THRESHOLD, 256 * 1024);
+  mallopt(M_TRIM_THRESHOLD, 1024 * 1024);
   DriverArgs a;
   a.self = argv[0];
   for (int k = 1; k < argc; k++) {
@@ -466,6 +472,14 @@ inline int driverMain(int argc, char **argv, Harness &h) {
     uint64_t rs = runSeedFor(a, h, (uint64_t)a.single);
     Json plan = h.generate(rs, (uint64_t)a.single);
     plan["seed"] = Json(std::to_string(rs));
+    if (const char *rep = getenv("VERIF_REPEAT")) {
+      // Leak hunting: execute the same plan many times and report the resident set size.
+      for (int k = 0, n = std::atoi(rep); k < n; k++) {
+        g_log.reset(false);
+        h.execute(plan);
+        if (k % (n / 10 ? n / 10 : 1) == 0) { std::string st = readFile("/proc/self/statm"); std::printf("repeat %d statm %s", k, st.c_str()); }
+      }
+    }
     g_log.reset(true);
     Outcome o = h.execute(plan);
     std::printf("PLAN %s\n", h.materialise(plan).dump(1).c_str());
